@@ -5,6 +5,8 @@
 #include <igris/util/crc.c>
 
 #include <sys/mman.h>
+#include <sys/wait.h>
+#include <fcntl.h>
 #include <sanitizer/asan_interface.h>
 #include <type_traits>
 
@@ -105,12 +107,40 @@ struct PreMain
         cmd[k] = 0;
         size_t a0 = strlen(cmd);
         if (a0 + 1 >= k || strcmp(cmd + a0 + 1, "run") != 0) return;
-        uint8_t m9[9] = {'1', '2', '3', '4', '5', '6', '7', '8', '9'};
-        uint8_t z4[4] = {0, 0, 0, 0};
+        // in a forked child, so that a fault before main() is reported by the op `premain` and by nothing else
+        int fd[2];
+        if (pipe(fd) != 0) return;
+        pid_t pid = fork();
+        if (pid == 0)
+        {
+            close(fd[0]);
+            int dn = open("/dev/null", O_WRONLY); // the sanitizer report of the child is not an op's report
+            if (dn >= 0) dup2(dn, 2);
+            compute();
+            (void)!write(fd[1], text, strlen(text));
+            _exit(0);
+        }
+        close(fd[1]);
+        ssize_t got = pid > 0 ? read(fd[0], text, sizeof text - 1) : -1;
+        close(fd[0]);
+        int st = 0;
+        if (pid > 0) waitpid(pid, &st, 0);
+        if (got <= 0 || !WIFEXITED(st) || WEXITSTATUS(st) != 0)
+            snprintf(text, sizeof text, "fault-before-main");
+        else
+            text[got] = 0;
+    }
+    void compute()
+    {
+        uint8_t *m9 = (uint8_t *)malloc(9), *z4 = (uint8_t *)malloc(4);
+        memcpy(m9, "123456789", 9);
+        memset(z4, 0, 4);
         uint8_t sm = 0xff;
         for (int i = 0; i < 9; i++) igris_strmcrc8(&sm, (char)m9[i]);
         snprintf(text, sizeof text, "%02x %02x %04x %02x %08x %02x", igris_crc8_table(m9, 9, 0), igris_crc8(m9, 9, 0), igris_crc16(m9, 9, 0),
                  igris_mmc_crc7(m9, 9), igris_crc32(z4, 4, 0xffffffffu), sm);
+        free(m9);
+        free(z4);
     }
 };
 __attribute__((init_priority(101))) static PreMain premain_obj;
